@@ -398,7 +398,20 @@ func freeRun(t *testing.T, cfg *Config, n int) *Result {
 				}
 			}()
 			freeCtr.Store(uint64(i) * 7919)
-			synctest.Test(t, func(t *testing.T) { cfg.Body() })
+			// a subtest per iteration: when the race detector reports something the
+			// testing package fails (and leaves) only that subtest
+			t.Run(fmt.Sprintf("freerun-%d", i), func(t *testing.T) {
+				synctest.Test(t, func(t *testing.T) {
+					// without the scheduler a body may deadlock in the bubble (e.g. it
+					// relies on Quiesce ordering): the bubble's panic is raised here
+					defer func() {
+						if r := recover(); r != nil {
+							fmt.Printf("freerun: %s iteration %d: %v\n", cfg.Name, i, r)
+						}
+					}()
+					cfg.Body()
+				})
+			})
 		}()
 		res.Executions++
 	}
